@@ -2,7 +2,6 @@ package http2utils
 
 import (
 	"bytes"
-	"crypto/rand"
 	"fmt"
 	"log"
 	"path/filepath"
@@ -102,7 +101,9 @@ func AddPadding(b []byte) []byte {
 
 	b[0] = uint8(n)
 
-	_, _ = rand.Read(b[nn+1 : nn+n])
+	// Padding octets must be zero when sending (RFC 7540 6.1), and the buffer
+	// may come from a pool with another frame's bytes still in it.
+	clear(b[nn+1:])
 
 	return b
 }
